@@ -146,9 +146,11 @@ func BandWidth(thorough bool) int64 {
 }
 
 // Deltas yields every delta = from - to of the three bands around -2^31, 0 and 2^31,
-// smallest |delta| first within the centre band, in a fixed order.
+// smallest |delta| first within the centre band, in a fixed order; then the bands around the
+// other places where 64-bit distance arithmetic changes its answer: +-2^32 (a distance whose
+// low 32 bits look like a short one) and the wrap-around of the signed distance at 2^63.
 func Deltas(w int64, yield func(delta int64) bool) {
-	for _, centre := range []int64{0, 1 << 31, -(1 << 31)} {
+	for _, centre := range []int64{0, 1 << 31, -(1 << 31), 1 << 32, -(1 << 32), -1 << 63} {
 		for d := -w; d <= w; d++ {
 			if !yield(centre + d) {
 				return
